@@ -14,7 +14,8 @@ EXPLANATION = (
     "initial_start is Some(Timestamp::start) exactly on the !skip_ext_time edge, read before the loop; on the Some arm "
     "elapsed is assigned duration_since(initial_start) of the maximum `end`; on the None arm elapsed is saturating_add'ed "
     "with max(slowest_time.picos, 1000). R04.4 defaults: min_time() -> zero, max_time() -> FineDuration::MAX."
-    " R04.5 the three time options are parsed into their own fields (expansion rules restricted to max_time/min_time/skip_ext_time).")
+    " R04.5 the three time options are parsed into their own fields (expansion rules restricted to max_time/min_time/skip_ext_time)."
+    " R04.6 (= R03.4) the remaining-sample counter counts recorded samples only: None while tuning, started from sample_count when collection starts.")
 NOT_DECIDED = ["agreement of the executed round count with a given clock history (needs a scripted clock - runtime family)"]
 
 # canonical atoms of the documented condition: continue  <=>  A and (B or C)
@@ -363,6 +364,17 @@ def r04_5(ctx, prog, crate):
     r15_3(ExpansionView(ctx, "R04.5", {"max_time", "min_time", "skip_ext_time", "DIVAN_MAX_TIME", "DIVAN_MIN_TIME", "DIVAN_SKIP_EXT_TIME"}), prog, crate)
 
 
+def r04_6(ctx, S, prog, crate):
+    """'Fewer than sample_count samples have been RECORDED': the remaining-sample counter that the loop condition tests
+    counts recorded samples only - it exists from the start exactly when the run starts out collecting, is (re)started from
+    sample_count (default 100) when tuning ends, and is None while tuning, so discarded tuning rounds never use up the
+    budget. The clause is R03.4 of C03 (same counter); it is a necessary part of this property's stopping rule and is
+    reported here under R04.6."""
+    from .C03 import r03_4
+    from .common import Renamed
+    r03_4(Renamed(ctx, "R04.6"), S, prog, crate)
+
+
 def run(ctx, prog, crate):
     r04_5(ctx, prog, crate)
     S = Sampling(prog, crate)
@@ -373,3 +385,4 @@ def run(ctx, prog, crate):
     r04_2(ctx, S)
     r04_3(ctx, S, prog, crate)
     r04_4(ctx, prog, crate)
+    r04_6(ctx, S, prog, crate)
